@@ -335,7 +335,7 @@ def compare_c06(proto, body, m, impl, vals, resvals, rblk_ptrs, engine='gen'):
         if (g_gp, g_fp, g_ov - rsp_before) != (gp, fp, ovm):
             bad.append('va_list after va_start: gp_offset=%d fp_offset=%d overflow_arg_area=args+%d, model %d,%d,args+%d' % (
                 g_gp, g_fp, g_ov - rsp_before, gp, fp, ovm))
-        if engine != 'interp' and g_rs != rsp_before - 192:
+        if g_rs != rsp_before - 192:  # generated prologue and interpreter shim both put it at entry_rsp-184
             bad.append('va_list reg_save_area = entry_rsp%+d, frame model entry_rsp-184' % (g_rs - (rsp_before - 8)))
     kind = body['kind']
     if kind in ('pressure', 'call'):
